@@ -121,6 +121,9 @@ def conv_unequal_dilation(c):
 REAL_OPS = ("softmax", "softmin", "batch_norm", "layer_norm", "instance_norm", "group_norm", "bilinear", "pairwise_distance", "cosine_similarity")
 
 
+PREDS = dict()
+
+
 def real_cases(ck, tier):
     """Real-valued routines on small integer data (fixed-point reference in NNReal.tla); tol in units of 1/1024."""
     r = ck.rng; out = []
@@ -162,7 +165,7 @@ def real_cases(ck, tier):
 def run(tier, seed):
     ck = Check("C17", tier, seed)
     quick = tier == "quick"
-    ck.preds.update(c17_conv_batch=conv_batch, c17_conv_groups_blocks=conv_groups_blocks, c17_conv_unequal_dilation=conv_unequal_dilation)
+    ck.preds.update(PREDS)      # no open findings
     ck.add_mc(vlib.tlc_model_check("MC_NN", "MC_NN_" + tier, timeout=2400))
     if quick:
         tab = conv_cases([(3, 3), (4, 3), (2, 4)], [1, 2, 3, 4], False) + pool_cases([(3, 3), (4, 3), (2, 4), (4, 4)], False) + linear_cases()
